@@ -165,3 +165,35 @@ Definition py_is_nil {X : Type} (l : list X) : bool := match l with [] => true |
 
 Definition py_len_str (s : string) : Z := Z.of_nat (String.length s).
 Definition py_len {X : Type} (l : list X) : Z := Z.of_nat (List.length l).
+
+(** ** Binary streams and the read loop
+
+    A stream is its remaining content plus a list of hints that make reads short: [read(n)]
+    returns at most [n] bytes ([n < 0]: everything), at least one if any are left and [n > 0],
+    and the empty byte string at the end (or for [n = 0]).  The read-loop idioms
+    [while True: c = d.read(n); if not c: break; <update>] / [while c := d.read(n): <update>] /
+    [for c in iter(lambda: d.read(n), b""): <update>] are one function: [n] is re-evaluated
+    from the accumulator before every read, the loop ends at the first empty read. *)
+Record py_stream : Type := MkStream { st_rest : list ascii; st_short : list nat }.
+
+Definition py_read (d : py_stream) (n : Z) : list ascii * py_stream :=
+  let len := List.length (st_rest d) in
+  let full := if (n <? 0)%Z then len else Nat.min (Z.to_nat n) len in
+  let k := match st_short d with [] => full | h :: _ => Nat.max (Nat.min h full) (Nat.min 1 full) end in
+  (firstn k (st_rest d), MkStream (skipn k (st_rest d)) (List.tl (st_short d))).
+
+Fixpoint py_read_loop_go {S : Type} (fuel : nat) (size : S -> Z) (step : S -> list ascii -> S)
+  (d : py_stream) (s : S) : S * py_stream :=
+  match fuel with
+  | O => (s, d)
+  | Datatypes.S f =>
+      let '(c, d') := py_read d (size s) in
+      match c with
+      | [] => (s, d')
+      | _ => py_read_loop_go f size step d' (step s c)
+      end
+  end.
+
+Definition py_read_loop {S : Type} (size : S -> Z) (step : S -> list ascii -> S)
+  (d : py_stream) (s : S) : S * py_stream :=
+  py_read_loop_go (Datatypes.S (List.length (st_rest d))) size step d s.
